@@ -796,6 +796,16 @@ class FnCtx:
     def path_feasible(self):
         return self.solver.feasible()
 
+    def in_range_now(self, t, rng):
+        """do the quantifier-free assumptions of the current path imply lo <= t <= hi?
+        (a sound simplification aid: the mirror solver holds a subset of the assumptions)"""
+        q = self.solver.qf
+        q.push()
+        q.add(z3.Or(t < rng[0], t > rng[1]))
+        r = q.check()
+        q.pop()
+        return r == z3.unsat
+
     def quick_valid(self, g):
         self.solver.push()
         self.solver.add(z3.Not(g))
